@@ -20,4 +20,10 @@ pub trait Index {
 
     /// Adds a record to the index.
     fn update(&mut self, min_shift: u8, depth: u8, start: Position, end: Position, chunk: Chunk);
+
+    /// Finalizes the index after all records are added.
+    ///
+    /// This is called once by the indexer before the index is built. The default implementation
+    /// does nothing.
+    fn finish(&mut self, _min_shift: u8, _depth: u8) {}
 }
